@@ -479,13 +479,49 @@ func (r *Renderer) RenderLit(l *Lit, mayNumber bool) string {
 		}
 	}
 	switch style {
-	case StyleBare, StyleNumber:
+	case StyleBare:
+		return r.renderBare(l.S)
+	case StyleNumber:
 		return l.S
 	case StyleBacktick:
 		return "`" + l.S + "`"
 	default:
 		return r.Quote(l.S)
 	}
+}
+
+// renderBare spells a bare value. A bare value is parsed as a selector and
+// denotes its parts joined by ".", so `cfg.a.b`, `cfg["a"].b`, `cfg["a.b"]`
+// and cfg[`a`]["b"] all denote the string "cfg.a.b".
+func (r *Renderer) renderBare(s string) string {
+	if r.Plain || r.KeepSpell || r.R == nil || r.R.Intn(3) > 0 {
+		return s
+	}
+	parts := strings.Split(s, ".")
+	if len(parts) < 2 {
+		return s
+	}
+	var sb strings.Builder
+	sb.WriteString(parts[0])
+	for i := 1; i < len(parts); {
+		j := i + 1
+		if r.R.Intn(3) == 0 {
+			for j < len(parts) && r.R.Intn(2) == 0 {
+				j++ // merge several parts into one index string containing dots
+			}
+		}
+		p := strings.Join(parts[i:j], ".")
+		switch {
+		case j == i+1 && r.R.Intn(2) == 0:
+			sb.WriteString("." + p)
+		case r.R.Intn(2) == 0:
+			sb.WriteString("[" + r.ows() + r.Quote(p) + r.ows() + "]")
+		default:
+			sb.WriteString("[" + r.ows() + "`" + p + "`" + r.ows() + "]")
+		}
+		i = j
+	}
+	return sb.String()
 }
 
 // ---------------------------------------------------------------------------
@@ -729,7 +765,7 @@ var IdentPool = []string{"a", "b", "c", "foo", "Bar", "x1", "a_b", "a/b", "nota"
 	"anyone", "alloy", "asx", "emptyx", "matchesx", "containsx", "Z", "q_", "n0t", "i", "v", "k", "item", "port", "tags", "meta"}
 
 var PartPool = []string{"a", "b", "foo", "0", "1", "10", "007", "x y", "", "A", " a", "a.b", "a/b", "~", "~1", "é", "日本", "a-b", "k:v", "p|q", "_", "in",
-	"not", "9lives", "\"q\"", "back`tick", "tab\there", "nl\nx", "\\", "emoji😀", "\x00", "ünï", "a_b", "B4"}
+	"not", "9lives", "\"q\"", "back`tick", "tab\there", "nl\nx", "\\", "emoji😀", "\x00", "ünï", "a_b", "B4", "\ufffd", "a\ufffdb", "v1", "2024"}
 
 var LitPool = []string{"", "1", "0", "-1", "1.5", "007", "abc", "true", "false", "foo.bar", "a.0", "x y", "/usr/bin", "/", "/a~1b", "//", "\"", "\\", "`", "\r", "a\r\nb",
 	"é", "日本語", "\x00", "\xff\xfe", "^a.*b$", "[0-9]+", "(", "not", "in", "-0", "1e3", "0x10", "1_000", "+1", "NaN", "a/b", "T", "emoji😀", "\t", " lead", "trail ", "%", "{}", "a==b", " "}
